@@ -1,6 +1,6 @@
 (* Uniform executable entry point of the model for the correspondence check:
    run_case tag args = the observable outputs the implementation must produce for the same case. *)
-From DDSV Require Import base.Machine model.View model.Layout model.DecoderSM model.EncoderSM model.Split model.DecodeScript model.Formats gen.GenFormats spec.SpecLayout model.HeaderTypes gen.GenHeader model.Header model.Numeric model.BCdec model.BC7 model.Float model.Convert model.Uncomp model.Crop model.RectPath model.PixelPath model.Encode model.BC6 model.BCF32.
+From DDSV Require Import base.Machine model.View model.Layout model.DecoderSM model.EncoderSM model.Split model.DecodeScript model.Formats gen.GenFormats spec.SpecLayout model.HeaderTypes gen.GenHeader model.Header model.Numeric model.BCdec model.BC7 model.Float model.Convert model.Uncomp model.Crop model.RectPath model.PixelPath model.BiPlanarPath model.Encode model.BC6 model.BCF32.
 
 Local Open Scope Z_scope.
 
@@ -391,6 +391,18 @@ Definition run_c52 (a : list Z) : list Z :=
   | _ => [-99]
   end.
 
+(* ---- C05 bi-planar code paths: [mode; e1; e2; sx; sy; conv; bbpp; outbpp; W; H; ox; oy; w; h] -> the ProcessBiPlanarFn calls *)
+Definition run_c53 (a : list Z) : list Z :=
+  match a with
+  | [mode; e1; e2; sx; sy; conv; bbpp; outbpp; W; H; ox; oy; w; h] =>
+      let n := Z.to_nat in
+      let cv := negb (conv =? 0) in
+      let tr := if mode =? 0 then BiPlanarPath.bp_trace (n e1) (n e2) (n sx) (n sy) cv (3072 / n bbpp) (n outbpp) (BiPlanarPath.bp_full_emits (n sy) (n H)) (n W) 0
+                else BiPlanarPath.bp_trace (n e1) (n e2) (n sx) (n sy) cv (3072 / n bbpp) (n outbpp) (BiPlanarPath.bp_rect_emits (n sy) (n H) (n oy) (n h)) (n w) (n ox mod n sx) in
+      flat_map (fun e => Z.of_nat (length e) :: map Z.of_nat e) tr
+  | _ => [-99]
+  end.
+
 (* ---- C12 uncompressed encode: [fmt; channels; prec; values...] -> bytes *)
 Definition run_c12 (a : list Z) : list Z :=
   match a with
@@ -423,6 +435,7 @@ Definition run_case (tag : Z) (args : list Z) : list Z :=
   | 5 => run_c05 args
   | 51 => run_c51 args
   | 52 => run_c52 args
+  | 53 => run_c53 args
   | 12 => run_c12 args
   | 121 => run_c121 args
   | 40 => run_c40 args
